@@ -3,19 +3,23 @@
 Direct oracle on the real code, for generated models (also one large enough for several
 pickle frames in the thorough tier):
 * crash points of `save_model`: the call is really interrupted (an exception derived from
-  `BaseException` raised from inside the file object) before `open`, right after `open`, and
-  after every `write` call of the pickler; then the cache file cut at byte offsets (quick: every
+  `BaseException` raised from inside the file object handed out for any binary write access to a
+  `*.pymoca_cache*` file) at `open`, right after `open`, at every `write` call of the pickler and
+  in the middle of a write; whatever files the code created are left behind, and `transfer_model`
+  is called again (twice); then the cache file cut at byte offsets (quick: every
   offset < 64, the last 8, and a seeded sample; thorough: every offset of the small models and
   a dense sample of the large one).  After each crash state the next `transfer_model` must
   return — not raise — a model equal (`a12_cache.signature`, exact) to a fresh compile, and the
   call after that must be served from the repaired cache, again equal;
-* reader/writer interleavings of two `transfer_model` calls on one folder: two threads run
-  strictly one at a time under a scheduler that yields at `load_model`, at `open(…, "wb")`, before
-  every piece of the pickled bytes reaches the (unbuffered) file, and at `close`; random
-  schedules and random splits into pieces.  Both calls must return correct models, the file
+* reader/writer interleavings of two `transfer_model` calls on one folder (no file, an incomplete
+  cache, a complete one or garbage already there): two threads run strictly one at a time under a
+  seeded scheduler that picks the next thread at every file operation — `load_model`, `open`, every
+  piece of the pickled bytes reaching the (unbuffered) file, `close`, and every
+  `os.remove/unlink/replace/rename` the code performs (`api.os` proxy).  Both calls must return correct models, the file
   must end up complete, and a third call must be a correct hit.
-* (thorough, outside the Lean model) torn files that are not prefixes: two different caches
-  spliced, zero-filled holes.
+* (outside the Lean model) torn files that are not prefixes: the caches of two option sets spliced
+  (what two overlapping writers with different options leave), zero-filled holes: open finding
+  C21-F2, replayed from the corpus in every run, sampled in the thorough tier.
 
 Tie to the Lean models (driver `drv_c21`): `CacheState` — every crash / truncation history is
 replayed with the exception CPython's unpickler really raised on those bytes, and the decision
@@ -27,6 +31,7 @@ the file after every step of every schedule and the hit/miss of every load are c
 import io
 import os
 import pickle
+import random
 import shutil
 import threading
 import types
@@ -81,11 +86,12 @@ def exc_json(e):
 # shims
 # ---------------------------------------------------------------------------------------------
 class CrashFile:
-    """File object for `open(cache, "wb")`: unbuffered, dies at the `at`-th write call."""
+    """File object handed to save_model for any binary write access to a cache(-like) file: unbuffered;
+    dies at the `at`-th write call, or after `at_bytes` bytes (in the middle of a write call)."""
 
-    def __init__(self, path, mode, at, calls):
+    def __init__(self, path, mode, at, calls, at_bytes=None):
         self.raw = io.open(path, mode, buffering=0)
-        self.at, self.calls, self.n = at, calls, 0
+        self.at, self.at_bytes, self.calls, self.n, self.nbytes = at, at_bytes, calls, 0, 0
 
     def __enter__(self):
         return self
@@ -94,10 +100,20 @@ class CrashFile:
         self.raw.close()
         return False
 
+    def close(self):
+        self.raw.close()
+
+    def flush(self):
+        pass
+
     def write(self, data):
         if self.at is not None and self.n >= self.at:
             raise SimCrash("died in write call %d" % self.n)
+        if self.at_bytes is not None and self.nbytes + len(data) > self.at_bytes:
+            self.raw.write(bytes(data)[:self.at_bytes - self.nbytes])
+            raise SimCrash("died after %d bytes" % self.at_bytes)
         self.n += 1
+        self.nbytes += len(data)
         self.calls.append(len(data))
         return self.raw.write(data)
 
@@ -105,7 +121,8 @@ class CrashFile:
 def install_open(api, hook):
     """`api.open` -> hook(path, mode) for any binary write access to the cache file, builtin otherwise."""
     def opener(path, mode="r", *a, **k):
-        if "b" in mode and any(c in mode for c in "wax+") and str(path).endswith(".pymoca_cache"):
+        # the cache file itself or any sibling the code may write first (`….pymoca_cache.tmp`, …)
+        if "b" in mode and any(c in mode for c in "wax+") and ".pymoca_cache" in os.path.basename(str(path)):
             return hook(path, mode)
         return io.open(path, mode, *a, **k)
     api.open = opener
@@ -309,47 +326,61 @@ class CrashBench:
             self.ctx.disagreement("crash.stale", case, "model: stale result", "impl: correct")
 
     # ---- one real interruption of save_model ------------------------------------------------------
-    def interruption(self, at, drv):
-        """`at` = None: die before open; j >= 0: die at the j-th write call (0 = file just created, empty)."""
+    def clean_folder(self):
+        """Back to the sources only (between two tests; never between a crash and the call that follows it)."""
+        d = self.w.dirs[0]
+        for fn in os.listdir(d):
+            if not fn.endswith(".mo"):
+                pth = os.path.join(d, fn)
+                shutil.rmtree(pth, ignore_errors=True) if os.path.isdir(pth) else os.remove(pth)
+
+    def interruption(self, at, drv, at_bytes=None):
+        """save_model really dies: `at` = None and `at_bytes` = None: when it opens the file; `at` = j: at its
+        j-th write call (0 = the file was just created); `at_bytes` = k: in the middle of a write, k bytes out.
+        Whatever files the code created stay; then transfer_model is called again."""
         ctx, w, api = self.ctx, self.w, self.api
-        case = {"stream": "interrupt", "text": self.text, "opts": self.opts, "at": at, "calls": self.calls}
-        if os.path.exists(w.cache_path()):
-            os.remove(w.cache_path())
-        # restart the model history: the sources, no cache file
+        case = {"stream": "interrupt", "text": self.text, "opts": self.opts, "at": at, "at_bytes": at_bytes}
+        self.clean_folder()
         w.model_ops[:] = self.model_prefix(False)
         start = len(w.model_ops)
+        before_open = at is None and at_bytes is None
 
         def hook(path, mode):
-            if at is None:
+            if before_open:
                 raise SimCrash("died before open")
-            return CrashFile(path, mode, at, [])
+            return CrashFile(path, mode, at, [], at_bytes)
         install_open(api, hook)
         try:
             w.spy_log.clear()
-            before = w.cache_stat()
             ok, r, msg = G.outcome_base(api.transfer_model, w.dirs[0], "M", w.real_opts(self.opts, []))
         finally:
             uninstall_open(api)
         if ok or r != "SimCrash":
-            raise HarnessError("the interruption did not happen: %s %s" % (r, msg))
+            ctx.tie_broken("interrupt:save_model-did-not-write-through-open", "%s %s" % (r, msg))
+            return True
+        leftovers = sorted(fn for fn in os.listdir(w.dirs[0]) if not fn.endswith(".mo"))
         after = w.cache_stat()
         now = w.clock + 1
         if after is not None:
             w.tick()
             G.set_mtime(w.cache_path(), w.ns(now))
         on_disk = after[2] if after else None
-        expect = None if at is None else sum(self.calls[:at])
-        ctx.case({"stream": "interrupt", "at": at, "on_disk": on_disk}, nontrivial=True, key=["intr", self.text, at])
-        ctx.count("interrupt:" + ("before-open" if at is None else "empty-file" if at == 0 else "after-write-call"))
-        if on_disk != expect:
-            ctx.disagreement("interrupt.bytes-on-disk", case, expect, on_disk)
-        w.model_ops.append(["crashed", w.model_opts(self.opts, []), now, len(self.B), "beforeOpen" if at is None else expect])
+        label = "before-open" if before_open else "empty-file" if (at == 0 or at_bytes == 0) else \
+            "after-write-call" if at is not None else "mid-write"
+        ctx.case({"stream": "interrupt", "at": at, "at_bytes": at_bytes, "left": leftovers}, nontrivial=True,
+                 key=["intr", self.text, at, at_bytes])
+        ctx.count("interrupt:" + label)
+        ctx.count("interrupt-leftovers:%d" % len(leftovers))
+        # the model follows what is on disk under the cache's name: nothing = died before open
+        w.model_ops.append(["crashed", w.model_opts(self.opts, []), now, len(self.B),
+                            "beforeOpen" if on_disk is None else on_disk])
+        where = "before open" if before_open else "at write call %s / byte %s (files left: %s)" % (at, at_bytes, leftovers)
         kinds = []
-        k1 = self.expect_correct(case, "save_model died %s" % ("before open" if at is None else "at write call %d (%s bytes on disk)" % (at, on_disk)))
+        k1 = self.expect_correct(case, "save_model died %s" % where)
         if k1 is None:
             return False
         kinds.append(k1)
-        k2 = self.expect_hit(case, "an interruption at %s" % at)
+        k2 = self.expect_hit(case, "an interruption %s" % where)
         if k2 is None:
             return False
         kinds.append(k2)
@@ -358,7 +389,7 @@ class CrashBench:
             errs = []
             if on_disk is not None and on_disk < len(self.B):
                 e = self.unpickle_exc(self.B[:on_disk])
-                errs = [[on_disk, exc_json(e)]]
+                errs = [[on_disk, exc_json(e)]] if e else []
             ans = drv.ask({"op": "cache.run", "excl": True, "version": 1, "errs": errs,
                            "err_default": {"mro": ["UnpicklingError", "PickleError", "Exception"], "deser": False},
                            "ops": w.model_ops})
@@ -371,60 +402,63 @@ class CrashBench:
 # ---------------------------------------------------------------------------------------------
 # part (c): reader / writer interleavings
 # ---------------------------------------------------------------------------------------------
-class Sched:
-    """Runs threads strictly one at a time along a fixed list of acts."""
+class DynSched:
+    """Runs the threads strictly one at a time; at every yield point (load_model, open, each piece of
+    the written bytes, close, and every os.remove/unlink/replace/rename the code performs) the next thread
+    to run is drawn from a seeded PRNG.  The executed acts and the file after each are logged."""
 
-    def __init__(self, acts, snapshot):
-        self.acts, self.snapshot = acts, snapshot
-        self.pos, self.runner, self.error = 0, None, None
+    def __init__(self, seed, snapshot, nthreads=2):
+        self.rng = random.Random(seed)
+        self.snapshot = snapshot
         self.cv = threading.Condition()
-        self.log = []
-        self.finished = set()
+        self.pending, self.running, self.live = {}, None, set(range(nthreads))
+        self.log, self.error = [], None
 
-    def wait_turn(self, i, kind):
+    def _grant(self):
+        if self.running is None and self.live and all(i in self.pending for i in self.live):
+            self.running = self.rng.choice(sorted(self.live))
+            self.cv.notify_all()
+
+    def yield_point(self, i, kind):
         with self.cv:
-            if self.runner == i:
-                self.runner = None
-                self.cv.notify_all()
-            while True:
+            self.pending[i] = kind
+            if self.running == i:
+                self.running = None
+            self._grant()
+            while self.running != i:
                 if self.error:
                     raise SimCrash(self.error)
-                if self.runner is None and self.pos < len(self.acts) and self.acts[self.pos][1] == i:
-                    act = self.acts[self.pos]
-                    if act[0] != kind:
-                        self.error = "call %d is at `%s`, the schedule says %s" % (i, kind, act)
-                        self.cv.notify_all()
-                        raise SimCrash(self.error)
-                    self.runner = i
-                    return act
-                if self.runner is None and self.pos >= len(self.acts):
-                    self.error = "call %d is at `%s` after the end of the schedule" % (i, kind)
+                if not self.cv.wait(timeout=90):
+                    self.error = "scheduler timeout (call %d at `%s`)" % (i, kind)
                     self.cv.notify_all()
                     raise SimCrash(self.error)
-                if not self.cv.wait(timeout=60):
-                    self.error = "scheduler timeout (call %d waiting for `%s`)" % (i, kind)
-                    self.cv.notify_all()
-                    raise SimCrash(self.error)
+            del self.pending[i]
 
-    def done(self, extra=None):
+    def did(self, act):
         with self.cv:
-            self.log.append({"file": self.snapshot(), "extra": extra})
-            self.pos += 1
+            self.log.append({"act": act, "file": self.snapshot()})
+
+    def piece(self, remaining):
+        r = self.rng.random()
+        return remaining if r < 0.4 else self.rng.randint(1, remaining) if r < 0.8 else self.rng.randint(1, min(remaining, 40))
 
     def finish(self, i):
         with self.cv:
-            if self.runner == i:
-                self.runner = None
-            self.finished.add(i)
-            self.cv.notify_all()
+            self.live.discard(i)
+            self.pending.pop(i, None)
+            if self.running == i:
+                self.running = None
+            self._grant()
 
 
 class SchedFile:
     def __init__(self, sched, i, path, mode):
         self.sched, self.i, self.buf = sched, i, []
-        sched.wait_turn(i, "open")
-        self.raw = io.open(path, mode, buffering=0)
-        sched.done()
+        sched.yield_point(i, "open")
+        try:
+            self.raw = io.open(path, mode, buffering=0)
+        finally:
+            sched.did(["open", i])
 
     def __enter__(self):
         return self
@@ -433,62 +467,59 @@ class SchedFile:
         self.buf.append(bytes(data))
         return len(data)
 
+    def flush(self):
+        pass
+
+    def close(self):
+        self.__exit__(None, None, None)
+
     def __exit__(self, et, ev, tb):
+        if self.raw.closed:
+            return False
         if et is not None:
             self.raw.close()
             return False
         data, pos = b"".join(self.buf), 0
         while pos < len(data):
-            act = self.sched.wait_turn(self.i, "write")
-            n = act[2]
+            self.sched.yield_point(self.i, "write")
+            n = self.sched.piece(len(data) - pos)
             self.raw.write(data[pos:pos + n])
             pos += n
-            self.sched.done()
-        self.sched.wait_turn(self.i, "close")
+            self.sched.did(["write", self.i, n])
+        self.sched.yield_point(self.i, "close")
         self.raw.close()
-        self.sched.done()
+        self.sched.did(["close", self.i])
         return False
 
 
-def gen_schedule(rng, N, f0_valid):
-    """Random enabled interleaving of two calls (a simulation of the protocol; the Lean model re-checks
-    that every act is enabled and the real run that every call is where the schedule says)."""
-    file_ok = f0_valid          # does the file hold exactly the complete bytes?
-    ph = ["start", "start"]
-    pos = [0, 0]
-    last = None
-    acts = []
-    while any(p not in ("hit", "wrote") for p in ph):
-        i = rng.choice([j for j in (0, 1) if ph[j] not in ("hit", "wrote")])
-        if ph[i] == "start":
-            acts.append(["load", i])
-            ph[i] = "hit" if file_ok else "missed"
-        elif ph[i] == "missed":
-            acts.append(["open", i])
-            ph[i], pos[i], last = "writing", 0, i
-            file_ok = False
-        elif pos[i] < N:
-            rem = N - pos[i]
-            r = rng.random()
-            n = rem if r < 0.3 else rng.randint(1, rem) if r < 0.65 else rng.randint(1, min(rem, 40))
-            acts.append(["write", i, n])
-            pos[i] += n
-            # complete as soon as the call that opened last has issued everything (the other only adds right bytes)
-            file_ok = pos[last] == N
-        else:
-            acts.append(["close", i])
-            ph[i] = "wrote"
-    return acts
+class OsProxy:
+    """`api.os` during a schedule: the file-removing / renaming calls become yield points."""
+    OPS = ("remove", "unlink", "replace", "rename")
+
+    def __init__(self, real, sched, tl):
+        self._real, self._sched, self._tl = real, sched, tl
+
+    def __getattr__(self, name):
+        val = getattr(self._real, name)
+        if name in self.OPS and getattr(self._tl, "i", None) is not None:
+            def op(*a, **k):
+                i = self._tl.i
+                self._sched.yield_point(i, "fsop")
+                try:
+                    return val(*a, **k)
+                finally:
+                    self._sched.did(["fsop", i, name])
+            return op
+        return val
 
 
-def run_schedule(ctx, bench, acts, f0, drv, sid):
-    """Executes one schedule with two threads on the bench's folder."""
+def run_schedule(ctx, bench, seed, f0, drv):
+    """Two transfer_model calls on the bench's folder, interleaved by a seeded scheduler."""
     api, w = bench.api, bench.w
-    case = {"stream": "interleave", "text": bench.text, "opts": bench.opts, "acts": acts,
-            "f0": None if f0 is None else "prefix:%d" % len(f0)}
+    f0kind = None if f0 is None else "complete" if f0 == bench.B else "prefix:%d" % len(f0) if bench.B.startswith(f0) else "garbage"
+    case = {"stream": "interleave", "text": bench.text, "opts": bench.opts, "sched_seed": seed, "f0": f0kind}
+    bench.clean_folder()
     path = w.cache_path()
-    if os.path.exists(path):
-        os.remove(path)
     if f0 is not None:
         with open(path, "wb") as f:
             f.write(f0)
@@ -499,14 +530,15 @@ def run_schedule(ctx, bench, acts, f0, drv, sid):
                 return f.read()
         except FileNotFoundError:
             return None
-    sched = Sched(acts, snapshot)
+    sched = DynSched(seed, snapshot)
     tl = threading.local()
     orig_load = api.load_model       # the CacheWorld spy
+    real_os = api.os
     loads = {}
 
     def load_hook(folder, name, opts):
         i = tl.i
-        sched.wait_turn(i, "load")
+        sched.yield_point(i, "load")
         try:
             m = orig_load(folder, name, opts)
             loads[i] = "hit"
@@ -515,7 +547,7 @@ def run_schedule(ctx, bench, acts, f0, drv, sid):
             loads[i] = type(e).__name__
             raise
         finally:
-            sched.done()
+            sched.did(["load", i])
     results = {}
 
     def body(i):
@@ -525,25 +557,31 @@ def run_schedule(ctx, bench, acts, f0, drv, sid):
         finally:
             sched.finish(i)
     api.load_model = load_hook
-    install_open(api, lambda p, mode: SchedFile(sched, tl.i, p, mode))
+    api.os = OsProxy(real_os, sched, tl)
+    install_open(api, lambda pth, mode: SchedFile(sched, tl.i, pth, mode) if getattr(tl, "i", None) is not None
+                 else io.open(pth, mode))
     try:
         ths = [threading.Thread(target=body, args=(i,)) for i in (0, 1)]
         for t in ths:
             t.start()
         for t in ths:
-            t.join(timeout=120)
+            t.join(timeout=200)
         if any(t.is_alive() for t in ths):
             raise HarnessError("scheduler threads did not finish")
     finally:
         uninstall_open(api)
+        api.os = real_os
         api.load_model = orig_load
-    overlapping = sum(1 for a in acts if a[0] == "open") == 2
-    ctx.case({"stream": "interleave", "acts": len(acts), "opens": sum(1 for a in acts if a[0] == "open")},
-             nontrivial=overlapping or f0 is not None, key=["sched", bench.text, acts, case["f0"]])
-    ctx.count("schedule:" + ("two-writers" if overlapping else "one-writer" if any(a[0] == "open" for a in acts) else "no-writer"))
+    acts = [e["act"] for e in sched.log]
+    case["acts"] = acts
+    opens = sum(1 for a in acts if a[0] == "open")
+    fsops = [a for a in acts if a[0] == "fsop"]
+    ctx.case({"stream": "interleave", "acts": len(acts), "opens": opens, "f0": f0kind}, nontrivial=opens == 2 or f0 is not None,
+             key=["sched", bench.text, seed, f0kind])
+    ctx.count("schedule:" + ("two-writers" if opens == 2 else "one-writer" if opens == 1 else "no-writer"))
+    ctx.count("schedule-f0:" + str(f0kind).split(":")[0])
     if sched.error:
-        ctx.disagreement("schedule-not-followed", case, "schedule enabled in the model", sched.error)
-        return
+        raise HarnessError("scheduler: " + sched.error)
     for i in (0, 1):
         ok, m, msg = results[i]
         if not ok:
@@ -556,7 +594,7 @@ def run_schedule(ctx, bench, acts, f0, drv, sid):
                           expected="fresh compile", observed=df, kind="schedule")
             return
     final = snapshot()
-    if any(a[0] == "open" for a in acts) and final != bench.B:
+    if opens and final != bench.B:
         ctx.violation("after two interleaved transfer_model calls the cache file is not the complete cache "
                       "(%s bytes, expected %d)" % (None if final is None else len(final), len(bench.B)), case,
                       expected="complete file", observed="differs", kind="schedule")
@@ -567,12 +605,16 @@ def run_schedule(ctx, bench, acts, f0, drv, sid):
                       case, expected="correct model", observed=str(m) if not ok else "diff", kind="schedule")
         return
     if drv is not None:
-        ans = drv.ask({"op": "file.run", "B": list(bench.B), "f0": None if f0 is None else list(f0), "acts": acts})
+        if fsops:
+            ctx.disagreement("schedule.unmodelled-file-operation", case, "the model has load/open/write/close only", fsops[:4])
+            return
+        macts = [a for a in acts if a[0] != "fsop"]
+        ans = drv.ask({"op": "file.run", "B": list(bench.B), "f0": None if f0 is None else list(f0), "acts": macts})
         if not ans.get("ok"):
             raise HarnessError("drv_c21 rejected file.run: %s" % ans)
         for j, (ms, rs) in enumerate(zip(ans["steps"], sched.log)):
             if not ms.get("enabled"):
-                ctx.disagreement("schedule.enabled", dict(case, step=j), "not enabled in the model", "executed by the real code")
+                ctx.disagreement("schedule.enabled", dict(case, step=j), "not enabled in the model", "executed by the real code: %s" % rs["act"])
                 return
             mf = None if ms["file"] is None else bytes(ms["file"])
             if mf != rs["file"]:
@@ -585,38 +627,86 @@ def run_schedule(ctx, bench, acts, f0, drv, sid):
             ctx.disagreement("schedule.outcomes", case, mph, want)
 
 
+def draw_f0(rng, bench):
+    r = rng.random()
+    if r < 0.35:
+        return None
+    if r < 0.75:
+        return bench.B[:rng.randrange(0, len(bench.B))]      # an incomplete cache is already there
+    if r < 0.85:
+        return bench.B
+    return b"\x80\x05garbage-not-a-pickle"
+
+
 # ---------------------------------------------------------------------------------------------
-def torn_nonprefix(ctx, bench, rng, n):
-    """Outside the Lean model: spliced / holed files.  Direct oracle only."""
+# part (d): torn files that are not prefixes (outside the Lean model; finding C21-F2)
+# ---------------------------------------------------------------------------------------------
+def other_cache(bench):
+    """The cache of the same model under another option set (what a second writer with other options writes)."""
     o2 = dict(bench.opts, detect_aliases=not bench.opts.get("detect_aliases", False))
     w = bench.w
-    os.remove(w.cache_path())
+    bench.clean_folder()
     ok, m, msg = G.outcome(bench.api.transfer_model, w.dirs[0], "M", w.real_opts(o2, []))
     if not ok:
-        return
+        return None
     with open(w.cache_path(), "rb") as f:
-        B2 = f.read()
-    for _ in range(n):
-        if ctx.time_left() < 20:
+        return f.read()
+
+
+def torn_bytes(bench, B2, kind, k):
+    return {"splice12": bench.B[:k] + B2[k:], "splice21": B2[:k] + bench.B[k:], "hole": bytes(k) + bench.B[k:]}[kind]
+
+
+def unpickle_class(data):
+    try:
+        pickle.load(io.BytesIO(data))
+    except Exception as e:  # noqa: BLE001
+        return type(e).__name__
+    return "loads"
+
+
+def torn_case(ctx, bench, B2, kind, k):
+    w = bench.w
+    with open(w.cache_path(), "wb") as f:
+        f.write(torn_bytes(bench, B2, kind, k))
+    case = {"stream": "torn-nonprefix", "text": bench.text, "opts": bench.opts, "kind": kind, "offset": k}
+    ctx.case({"stream": "torn-nonprefix", "kind": kind, "offset": k}, nontrivial=True, key=["torn", bench.text, kind, k])
+    ctx.count("torn:" + kind)
+    ok, m, msg = G.outcome(bench.api.transfer_model, w.dirs[0], "M", w.real_opts(bench.opts, []))
+    if not ok:
+        ctx.violation("transfer_model raised %s on a torn cache file (%s)" % (m, kind), case,
+                      expected="recompile", observed="%s: %s" % (m, msg), kind="crash")
+        return False
+    if G.diff(bench.ref, G.signature(m, 2, 3)):
+        ctx.violation("transfer_model returned a wrong model from a torn cache file (%s)" % kind, case,
+                      expected="fresh compile", observed="differs", kind="crash")
+        return False
+    return True
+
+
+CONVERTED = ("UnpicklingError", "AttributeError", "EOFError", "ImportError", "IndexError", "ModuleNotFoundError")
+
+
+def torn_stream(ctx, bench, rng, n, scan_only=False):
+    """Random splices/holes; plus — found by unpickling the torn bytes in the harness first — offsets where the
+    unpickler raises a class outside the documented ones, or returns an object."""
+    B2 = other_cache(bench)
+    if B2 is None:
+        return
+    lim = min(len(B2), len(bench.B))
+    plan = [(rng.choice(["splice12", "splice21", "hole"]), rng.randrange(1, lim)) for _ in range(0 if scan_only else n)]
+    seen = set()
+    for k in range(1, lim, max(1, lim // 400)):
+        for kind in ("splice12", "splice21"):
+            cls = unpickle_class(torn_bytes(bench, B2, kind, k))
+            if cls not in CONVERTED and (kind, cls) not in seen:
+                seen.add((kind, cls))
+                plan.append((kind, k))
+                ctx.count("torn-unpickler:" + cls)
+    for kind, k in plan:
+        if ctx.time_left() < 5:
             break
-        k = rng.randrange(1, min(len(B2), len(bench.B)))
-        kind = rng.choice(["splice12", "splice21", "hole"])
-        data = {"splice12": bench.B[:k] + B2[k:], "splice21": B2[:k] + bench.B[k:],
-                "hole": bytes(k) + bench.B[k:]}[kind]
-        with open(w.cache_path(), "wb") as f:
-            f.write(data)
-        case = {"stream": "torn-nonprefix", "text": bench.text, "opts": bench.opts, "kind": kind, "offset": k}
-        ctx.case({"stream": "torn-nonprefix", "kind": kind, "offset": k}, nontrivial=True, key=["torn", bench.text, kind, k])
-        ctx.count("torn:" + kind)
-        ok, m, msg = G.outcome(bench.api.transfer_model, w.dirs[0], "M", w.real_opts(bench.opts, []))
-        if not ok:
-            ctx.violation("transfer_model raised %s on a torn cache file (%s at %d)" % (m, kind, k), case,
-                          expected="recompile", observed="%s: %s" % (m, msg), kind="crash")
-            return
-        if G.diff(bench.ref, G.signature(m, 2, 3)):
-            ctx.violation("transfer_model returned a wrong model from a torn cache file (%s at %d)" % (kind, k), case,
-                          expected="fresh compile", observed="differs", kind="crash")
-            return
+        torn_case(ctx, bench, B2, kind, k)
 
 
 def make_benches(ctx, quick):
@@ -674,31 +764,32 @@ def run(ctx):
             b.close()
         return
     try:
-        # ---- interruptions of save_model at every write call ------------------------------------------
-        for b in benches:
-            for at in [None] + list(range(0, len(b.calls) + 1)):
-                if at is not None and at == len(b.calls):
-                    continue     # dying after the last write call = complete file (covered by offset N)
+        # ---- everything random is drawn first: the case sequence depends on the seed only ----------------
+        nint = 14 if quick else 300
+        scheds = [(benches[j % len(benches)], ctx.rng.randrange(10**9)) for j in range(nint)]
+        scheds = [(b, seed, draw_f0(ctx.rng, b)) for b, seed in scheds]
+        plans = [offsets_for(b, ctx.rng, quick, 70 if quick else 2500) for b in benches]
+        mid = [[ctx.rng.randrange(1, len(b.B)) for _ in range(2 if quick else 25)] for b in benches]
+        # ---- save_model really interrupted: at open, at every write call, in the middle of a write ------
+        for b, ks in zip(benches, mid):
+            for at in [None] + list(range(0, len(b.calls))):
                 if not b.interruption(at, drv):
                     return
-        # ---- interleavings (all drawn first: the case sequence depends on the seed only) ----------------
-        nint = 16 if quick else 300
-        scheds = []
-        for j in range(nint):
-            b = benches[j % len(benches)]
-            r = ctx.rng.random()
-            f0 = None if r < 0.6 else b.B[:ctx.rng.randrange(0, len(b.B))] if r < 0.85 else b.B
-            scheds.append((b, f0, gen_schedule(ctx.rng, len(b.B), f0 == b.B)))
-        plans = [offsets_for(b, ctx.rng, quick, 70 if quick else 2500) for b in benches]
-        for j, (b, f0, acts) in enumerate(scheds):
-            if ctx.time_left() < (22 if quick else 200):
+            for k in ([1] + ks if b is benches[0] or not quick else ks[:1]):
+                if not b.interruption(None, drv, at_bytes=k):
+                    return
+        # ---- interleavings ----------------------------------------------------------------------------------
+        for j, (b, seed, f0) in enumerate(scheds):
+            if ctx.time_left() < (20 if quick else 200):
                 ctx.notes.append("interleavings stopped by the time budget after %d of %d" % (j, nint))
                 break
             if not b.deterministic:
                 continue
-            run_schedule(ctx, b, acts, f0, drv, j)
+            run_schedule(ctx, b, seed, f0, drv)
             if ctx.violations:
                 return
+        for b in benches:
+            b.clean_folder()
         # ---- truncation at byte offsets: first the mandatory ones for every model, then samples ---------
         if quick:   # every offset < 64 and the last 8 on the first model; the ends only on the others
             plans = [(base if n == 0 else [0, 1, 2, 3, len(b.B) - 1, len(b.B)], extra)
@@ -726,7 +817,7 @@ def run(ctx):
         ctx.extra["sampled_offsets_done"] = done
         ctx.extra["every_offset_covered"] = [(not quick) and len(b.B) <= 40000 for b in benches]
         if not quick:
-            torn_nonprefix(ctx, benches[0], ctx.rng, 150)
+            torn_stream(ctx, benches[0], ctx.rng, 150)
     finally:
         for b in benches:
             b.close()
@@ -742,7 +833,7 @@ def search(ctx):
             if ctx.rng.random() < 0.7:
                 b.truncation(ctx.rng.randrange(0, len(b.B)), None)
             elif b.deterministic:
-                run_schedule(ctx, b, gen_schedule(ctx.rng, len(b.B), False), None, None, 0)
+                run_schedule(ctx, b, ctx.rng.randrange(10**9), draw_f0(ctx.rng, b), None)
     finally:
         for b in benches:
             b.close()
@@ -764,12 +855,18 @@ def replay(ctx, payload):
         if c["stream"] == "truncate":
             b.truncation(c["offset"], drv, check_hit=True, edit_after=c.get("edit_after", False))
         elif c["stream"] == "interrupt":
-            b.interruption(c["at"], drv)
+            b.interruption(c["at"], drv, at_bytes=c.get("at_bytes"))
         elif c["stream"] == "interleave":
-            f0 = None if c["f0"] is None else b.B[:int(c["f0"].split(":")[1])]
-            run_schedule(ctx, b, c["acts"], f0, drv, 0)
+            f0 = None if c["f0"] is None else b.B if c["f0"] == "complete" else b"\x80\x05garbage-not-a-pickle" \
+                if c["f0"] == "garbage" else b.B[:int(c["f0"].split(":")[1])]
+            run_schedule(ctx, b, c["sched_seed"], f0, drv)
         elif c["stream"] == "torn-nonprefix":
-            torn_nonprefix(ctx, b, ctx.rng, 50)
+            # pickle bytes vary between processes (set order): retry the recorded offset, then scan for the class of input
+            B2 = other_cache(b)
+            if B2 is not None and c.get("offset", 0) < min(len(B2), len(b.B)) and c.get("kind"):
+                torn_case(ctx, b, B2, c["kind"], c["offset"])
+            if not ctx.violations and not ctx.known_hits:
+                torn_stream(ctx, b, ctx.rng, 0, scan_only=True)
     finally:
         b.close()
 
